@@ -267,16 +267,7 @@ func c13L3(r *Run, rep *core.Report) {
 			n++
 			name := fn(f) + sp.String(f)
 			rep.Spec(name)
-			var casVal ssa.Value
-			core.Instrs(f, func(in ssa.Instruction) {
-				if c, ok := in.(*ssa.Call); ok {
-					if op, addr, ok := core.AtomicOp(c); ok && op == "CAS" {
-						if a := core.Addr(addr); a.Owner == mm.Name && a.Field == mm.FlagF {
-							casVal = c
-						}
-					}
-				}
-			})
+			casVal := flagCASIn(mm, f)
 			m := &core.Machine[rzState]{P: r.P, Fn: f, Spec: sp, Inline: helperInline(r)}
 			m.Step = func(ctx *core.Ctx[rzState], s rzState, in ssa.Instruction) []rzState {
 				if _, isDefer := in.(*ssa.Defer); isDefer {
@@ -296,7 +287,7 @@ func c13L3(r *Run, rep *core.Report) {
 				if c, ok := in.(ssa.CallInstruction); ok {
 					if op, addr, ok := core.AtomicOp(c); ok {
 						a := core.Addr(addr)
-						if a.Owner == mm.Name && a.Field == mm.FlagF {
+						if mm.IsFlag(a) {
 							switch op {
 							case "CAS":
 								s.Owner = 0
@@ -428,7 +419,14 @@ func c13L3(r *Run, rep *core.Report) {
 				only := true
 				sites := core.CallSitesOf(r.P.Funcs, g)
 				for _, site := range sites {
-					if site.Parent() != f {
+					fromResize := false
+					for _, m2 := range r.M.Maps {
+						// bookkeeping shared by both map types: the other map's resize owner calls the same helper
+						if site.Parent() == m2.Resize && m2.StateOwner == mm.StateOwner {
+							fromResize = true
+						}
+					}
+					if !fromResize {
 						only = false
 					}
 				}
@@ -439,13 +437,13 @@ func c13L3(r *Run, rep *core.Report) {
 			core.Instrs(g, func(in ssa.Instruction) {
 				if c, ok := in.(ssa.CallInstruction); ok {
 					if op, addr, ok := core.AtomicOp(c); ok && op != "Load" {
-						if a := core.Addr(addr); a.Owner == mm.Name && a.Field == mm.FlagF {
+						if a := core.Addr(addr); mm.IsFlag(a) {
 							rep.Fail("C13.L3", fn(g)+" writes resize flag", r.P.InstrPos(in), "resize flag written outside the resize owner")
 						}
 					}
 				}
 				if st, ok := in.(*ssa.Store); ok {
-					if a := core.Addr(st.Addr); a.Owner == mm.Name && a.Field == mm.FlagF {
+					if a := core.Addr(st.Addr); mm.IsFlag(a) {
 						rep.Fail("C13.L3", fn(g)+" writes resize flag", r.P.InstrPos(in), "plain store to the resize flag")
 					}
 				}
@@ -489,7 +487,7 @@ func c13L4(r *Run, rep *core.Report) {
 				return []wtState{s}
 			}
 			if op, addr, ok := core.AtomicOp(c); ok && op == "Load" && mm != nil {
-				if a := core.Addr(addr); a.Owner == mm.Name && a.Field == mm.FlagF {
+				if a := core.Addr(addr); mm.IsFlag(a) {
 					s.Tested = s.Mu
 				}
 			}
@@ -514,6 +512,9 @@ func c13L4(r *Run, rep *core.Report) {
 		m.Run()
 		for in, ok := range okAt {
 			waits++
+			if len(r.M.Maps) == 2 && r.M.Maps[0].Wait == f && r.M.Maps[1].Wait == f {
+				waits++ // one wait function on the bookkeeping struct shared by both map types
+			}
 			c := fn(f) + " Cond.Wait"
 			if ok {
 				rep.Pass("C13.L4", c, r.P.InstrPos(in), "flag tested under the resize mutex on every path to the Wait")
